@@ -59,6 +59,17 @@ DOCS = {
     "dcint": '<!DOCTYPE a SYSTEM "e3.dtd" [<!ENTITY loc "local"><!ATTLIST c extra CDATA "ex">]><a><b ent="pic">&loc;&txt;</b><c/></a>',
     "dcsa": '<?xml version="1.0" standalone="yes"?><!DOCTYPE a SYSTEM "e3.dtd"><a><b nm=" n1  n2 ">x</b></a>',
     "dcroot": '<!DOCTYPE b SYSTEM "e3.dtd"><b ent="pic2">t</b>',
+    # --- xsi:type / xsi:nil / xsi:schemaLocation on CHILD elements, inside skipped wildcard content, on an undeclared element
+    #     (sx.xsd: r of type A; B extends A with attribute q; C unrelated; w holds skipped wildcard content)
+    "xt_plain": '<r %s xsi:noNamespaceSchemaLocation="sx.xsd"><k/><k p="1"/></r>' % XSI,
+    "xt_plainq": '<r %s xsi:noNamespaceSchemaLocation="sx.xsd" q="5"><k/></r>' % XSI,
+    "xt_child": '<r %s xsi:noNamespaceSchemaLocation="sx.xsd"><k/><k xsi:type="C"><only>1</only></k></r>' % XSI,
+    "xt_childB": '<r %s xsi:noNamespaceSchemaLocation="sx.xsd"><k xsi:type="B" q="1"/></r>' % XSI,
+    "xt_nil": '<r %s xsi:noNamespaceSchemaLocation="sx.xsd"><k/><k xsi:nil="true"/></r>' % XSI,
+    "xt_rootnil": '<r %s xsi:noNamespaceSchemaLocation="sx.xsd" xsi:nil="true"/>' % XSI,
+    "xt_loc": '<r %s xsi:noNamespaceSchemaLocation="sx.xsd"><w><p:a xmlns:p="u1" xsi:schemaLocation="u1 s1.xsd"><p:b>12</p:b></p:a></w></r>' % XSI,
+    "xt_skip": '<r %s xsi:noNamespaceSchemaLocation="sx.xsd"><w><z xsi:type="C" xsi:nil="true"/></w></r>' % XSI,
+    "xt_abort": '<r %s xsi:noNamespaceSchemaLocation="sx.xsd"><undecl xsi:type="B" q="x"/><k/></r>' % XSI,
     # --- fragments for DOMLSParser::parseWithContext
     "fr1": '<x>t</x>', "fr2": '<y a="1"><z/> </y>', "frbad1": '<x>', "frbad2": '<x></y>', "frbad3": '<x a=1/>',
     # --- no DTD
@@ -135,16 +146,61 @@ EXTS = {
               '</xs:sequence></xs:complexType></xs:element></xs:schema>',
     "si2.xsd": XS_HEAD + 'targetNamespace="u4" elementFormDefault="qualified"><xs:element name="item" type="xs:int"/></xs:schema>',
     "sm.xsd": XS_HEAD + 'targetNamespace="u5" elementFormDefault="qualified"><xs:element name="ext" type="xs:string"/></xs:schema>',
+    "sx.xsd": XS_HEAD + '><xs:complexType name="A"><xs:sequence><xs:element name="k" type="A" minOccurs="0" maxOccurs="unbounded"/>'
+              '<xs:element name="w" minOccurs="0"><xs:complexType><xs:sequence><xs:any processContents="skip" minOccurs="0" '
+              'maxOccurs="unbounded"/></xs:sequence></xs:complexType></xs:element></xs:sequence>'
+              '<xs:attribute name="p" type="xs:string"/></xs:complexType>'
+              '<xs:complexType name="B"><xs:complexContent><xs:extension base="A"><xs:attribute name="q" type="xs:int"/>'
+              '</xs:extension></xs:complexContent></xs:complexType>'
+              '<xs:complexType name="C"><xs:sequence><xs:element name="only" type="xs:int"/></xs:sequence></xs:complexType>'
+              '<xs:element name="r" type="A" nillable="true"/></xs:schema>',
     "sl.xsd": XS_HEAD + '><xs:element name="a"><xs:complexType><xs:sequence><xs:any processContents="lax" maxOccurs="unbounded"/>'
               '</xs:sequence></xs:complexType></xs:element></xs:schema>',
 }
+BIG_N = (65, 128, 129, 200)
+
+
+def _big():
+    """grammars declaring MORE than 64 attributes (the scanners' unsigned-int pool rows hold 64 entries) on one element and
+    across elements, with documents using all of them / individual ones (every 8th attribute has a default)"""
+    def attname(i):
+        return "a%d" % i
+    for n in BIG_N:
+        decl = " ".join('%s CDATA %s' % (attname(i), ('"d%d"' % i) if i % 8 == 0 else "#IMPLIED") for i in range(1, n + 1))
+        EXTS["big%d.dtd" % n] = "<!ELEMENT r (e*)><!ELEMENT e EMPTY><!ATTLIST e %s>" % decl
+        xa = "".join('<xs:attribute name="%s" type="xs:string"%s/>' % (attname(i), (' default="d%d"' % i) if i % 8 == 0 else "")
+                     for i in range(1, n + 1))
+        EXTS["big%d.xsd" % n] = (XS_HEAD + '><xs:element name="r"><xs:complexType><xs:sequence><xs:element name="e" minOccurs="0" '
+                                 'maxOccurs="unbounded"><xs:complexType>%s</xs:complexType></xs:element></xs:sequence>'
+                                 '</xs:complexType></xs:element></xs:schema>' % xa)
+        allattrs = " ".join('%s="v%d"' % (attname(i), i) for i in range(1, n + 1))
+        sample = sorted(set([1, 2, 6, 7, 8, 9, 63, 64, 65, 66, n - 1, n] + list(range(3, n, 5))))
+        some = "<e/>" + "".join('<e %s="s"/>' % attname(j) for j in sample if 1 <= j <= n) + "<e/>"
+        for kind, head in (("bd", '<!DOCTYPE r SYSTEM "big%d.dtd"><r>' % n),
+                           ("bs", '<r %s xsi:noNamespaceSchemaLocation="big%d.xsd">' % (XSI, n))):
+            DOCS["%s%d_all" % (kind, n)] = head + "<e/><e/><e %s/><e %s/></r>" % (allattrs, allattrs)
+            DOCS["%s%d_some" % (kind, n)] = head + some + "</r>"
+    # across elements: 40 element types with 5 attributes each (200 declarations), every element used
+    els = range(1, 41)
+    EXTS["bigm.dtd"] = "<!ELEMENT r (%s)*>" % "|".join("e%d" % i for i in els) + "".join(
+        '<!ELEMENT e%d EMPTY><!ATTLIST e%d x1 CDATA #IMPLIED x2 CDATA "m%d" x3 CDATA #IMPLIED x4 CDATA #IMPLIED x5 CDATA "n%d">' % (i, i, i, i)
+        for i in els)
+    DOCS["bdm_all"] = '<!DOCTYPE r SYSTEM "bigm.dtd"><r>' + "".join('<e%d x1="1" x2="2" x3="3" x4="4" x5="5"/>' % i for i in els) * 2 + "</r>"
+    DOCS["bdm_some"] = '<!DOCTYPE r SYSTEM "bigm.dtd"><r>' + "".join('<e%d x%d="s"/>' % (i, 1 + i % 5) for i in els) + "</r>"
+
+
+_big()
+BIG_DOCS = {d for d in DOCS if d.startswith(("bd", "bs")) and d[2:3].isdigit() or d.startswith("bdm")}
 DOC_IDS = sorted(DOCS)
+SMALL_DOCS = [d for d in DOC_IDS if d not in BIG_DOCS and not d.startswith("fr") and d not in ("v11", "v11b")]
 V11_DOCS = {"v11", "v11b"}
 # documents with elements that are not declared in the schema they are validated against (trigger of F15u)
 UNDECL_DOCS = {"slax1", "slax2", "sbad1", "sbadn", "snohint", "nnohint", "nnohintbad"}
 SCHEMA_DOCS = [d for d in DOC_IDS if d.startswith("s")]
 DTD_FAMILY = ("e3.dtd", ["dcv", "dcv2", "dcbad", "dcbad2", "dcsa", "dcroot"], ["dcint"])   # (dtd, external-subset-only docs, + internal)
-EXT_DTD_DOCS = {"dext1", "dext2", "dcv", "dcv2", "dcbad", "dcbad2", "dcint", "dcsa", "dcroot"}
+EXT_DTD_DOCS = {"dext1", "dext2", "dcv", "dcv2", "dcbad", "dcbad2", "dcint", "dcsa", "dcroot"} | {d for d in DOCS if d.startswith("bd")}
+XSI_DOCS = ["xt_child", "xt_childB", "xt_nil", "xt_rootnil", "xt_loc", "xt_skip", "xt_abort"]
+XSI_FINALS = ["xt_plain", "xt_plainq", "xt_childB", "xt_child", "svn"]
 FRAGS = ["fr1", "fr2", "frbad1", "frbad2", "frbad3"]
 FAMILIES = [("s1.xsd", ["sv1", "sbad1"]), ("s2.xsd", ["sv2", "sbad2"]), ("sn.xsd", ["svn", "sbadn"]),
             ("si.xsd", ["sinc", "sincbad", "sinc2"])]
@@ -215,8 +271,8 @@ def gen_history(rng, api, thorough):
         d = rng.choice(DOC_IDS)
         if d in V11_DOCS and rng.random() < 0.8:
             d = rng.choice(DOC_IDS)
-        if d in FRAGS:
-            d = rng.choice(DOC_IDS)
+        if d in FRAGS or d in BIG_DOCS:
+            d = rng.choice(SMALL_DOCS)
         r2 = rng.random()
         if api == "ls" and r2 < 0.16:
             ops.append("pc:%s:%d:%d" % (rng.choice(FRAGS), rng.randrange(1, 6), rng.randrange(4)))
@@ -256,8 +312,8 @@ def gen_history(rng, api, thorough):
         else:
             ops.append("ul")
     fin = rng.choice(DOC_IDS)
-    if fin in V11_DOCS or fin in FRAGS:
-        fin = rng.choice([x for x in DOC_IDS if x not in FRAGS and x not in V11_DOCS])
+    if fin in V11_DOCS or fin in FRAGS or fin in BIG_DOCS:
+        fin = rng.choice(SMALL_DOCS)
     tail = ":r" if (caching or rng.random() < 0.3) else ""
     return "H %s %s %s F:%s%s" % (api, sc, " ".join(ops), fin, tail)
 
@@ -324,6 +380,104 @@ def gen_dtd_cross(rng, thorough):
                                 if sc != "DG":      # (DG: a second parse after an external-DTD parse is crash class F15c)
                                     mid += ["p:%s" % pick() for _ in range(rng.randrange(0, 2))]
                             out.append(("dtdcross-%s-%s" % (api, sc), "H %s %s %s F:%s:t" % (api, sc, " ".join(cfg + mid), fin)))
+    return out
+
+
+TOGGLES = ["ic", "loaddtd", "fullcheck", "exitfatal", "vcfatal", "skipdtd", "loadschema", "ns", "schema"]
+
+
+def gen_settings_between(rng, thorough):
+    """one parser re-used with SETTINGS CHANGED BETWEEN PARSES: a schema-aware parse with validation off / auto / on of a
+    document carrying xsi:type / xsi:nil / xsi:schemaLocation on child elements, inside skipped wildcard content or on an
+    undeclared element (also aborted there: validation-constraint-fatal, handler exception at callback k), then the settings
+    change (validation scheme and a random subset of the other switches) and a document without them is parsed."""
+    out = []
+    k = 0
+    for api in APIS:
+        for sc in ("IG", "SG"):
+            for v1 in (0, 2, 1):
+                for d1 in XSI_DOCS:
+                    for fin in XSI_FINALS:
+                        k += 1
+                        if not thorough and (k + len(d1)) % 2:
+                            continue            # half of the cross product per run (the other half with another seed / tier)
+                        pre = ["s:ns:1", "s:schema:1", "s:val:%d" % v1]
+                        if v1 == 1 and d1 == "xt_abort":
+                            pre.append("s:vcfatal:1")
+                        first = rng.choice(["p:%s" % d1, "p:%s" % d1, "px:%s:%d" % (d1, rng.randrange(2, 9)), "pn:%s:%d" % (d1, rng.randrange(1, 6))])
+                        mid = ["s:val:%d" % rng.choice([1, 1, 2]), "s:vcfatal:0"]
+                        for f in rng.sample(TOGGLES, rng.randrange(0, 3)):
+                            if f not in ("ns", "schema"):
+                                mid.append("s:%s:%d" % (f, rng.randrange(2)))
+                        extra = ["p:%s" % rng.choice(XSI_DOCS)] if rng.random() < 0.25 else []
+                        if extra:
+                            mid = ["s:val:0"] + extra + mid
+                        out.append(("settings-%s-%s" % (api, sc), "H %s %s %s %s %s F:%s" % (api, sc, " ".join(pre), first, " ".join(mid), fin)))
+    return out
+
+
+def gen_big(rng, thorough):
+    """size dimension with shared declaration objects: a cached grammar (loadGrammar + useCachedGrammarInParse, or cached from
+    the first parse) with more than 64 attribute declarations; a document using all of them, then documents using / omitting
+    individual ones: defaults must still be applied and nothing may be reported as already specified"""
+    out = []
+    for api in APIS:
+        for n in BIG_N:
+            for kind, scs, g, t in (("bd", ("IG", "DG"), "big%d.dtd" % n, "d"), ("bs", ("IG", "SG"), "big%d.xsd" % n, "s")):
+                for sc in scs:
+                    for how in ("lg", "cp"):
+                        cfg = ["s:val:1"] + (["s:ns:1", "s:schema:1"] if t == "s" else []) + (["s:resolver:0"] if (t == "d" and how == "lg") else [])
+                        mid = (["lg:%s:%s:1" % (g, t), "s:usecache:1"] if how == "lg" else ["s:cache:1"])
+                        a, b = "%s%d_all" % (kind, n), "%s%d_some" % (kind, n)
+                        seqs = [[a], [a, b, a]] if not (sc == "DG" and how == "cp") else [[a]]
+                        for seq in seqs:
+                            out.append(("big-%s-%s" % (api, sc), "H %s %s %s %s F:%s:t" % (api, sc, " ".join(cfg + mid), " ".join("p:" + d for d in seq), b)))
+        for sc in ("IG", "DG"):
+            out.append(("big-%s-%s" % (api, sc), "H %s %s s:val:1 s:resolver:0 lg:bigm.dtd:d:1 s:usecache:1 p:bdm_all F:bdm_some:t" % (api, sc)))
+            out.append(("big-%s-%s" % (api, sc), "H %s %s s:val:1 s:cache:1 p:bdm_all F:bdm_some:t" % (api, sc)))
+    return out
+
+
+SEQ_FEATURES = {
+    "sax2": ["validation", "dynamic", "schema", "fullcheck", "ns", "nsprefixes", "loaddtd", "ic", "skipdtd", "exitfatal", "vcfatal", "loadschema"],
+    "ls": ["validate", "validate-if-schema", "schema", "fullcheck", "ns", "loaddtd", "ic", "skipdtd", "exitfatal", "vcfatal", "entrefs", "ignws"],
+    "sax": ["val", "schema", "fullcheck", "ns", "loaddtd", "ic", "skipdtd", "exitfatal", "vcfatal", "loadschema"],
+    "dom": ["val", "schema", "fullcheck", "ns", "loaddtd", "ic", "skipdtd", "exitfatal", "vcfatal", "entrefs", "ignws"],
+}
+PROBES = ["plain", "dv1", "dbad1", "dbad2", "dws", "dext1", "sv1", "sbad1", "svn", "ns1", "nsunb", "xt_plain", "xt_child", "snohint", "dcsa"]
+
+
+def gen_feature_seq(rng, thorough):
+    """feature SEQUENCES: each feature switched on/off several times in every order (exhaustive for the validation /
+    validation-dynamic pair of SAX2 and validate / validate-if-schema of DOMLS, random for the rest), optionally with parses in
+    between; the parser must end up in the state given by the final read-back values: equal to a fresh parser on which only
+    those were set (both orders for SAX2)."""
+    out = []
+    import itertools
+    # exhaustive: all sequences of length <= 4 over the two coupled validation switches
+    for api, (f1, f2) in (("sax2", ("validation", "dynamic")), ("ls", ("validate", "validate-if-schema"))):
+        steps = [(f, v) for f in (f1, f2) for v in (0, 1)]
+        for ln in (2, 3, 4):
+            for seq in itertools.product(steps, repeat=ln):
+                if not thorough and ln == 4 and rng.random() < 0.6:
+                    continue
+                ops = ["s:%s:%d" % fv for fv in seq]
+                if rng.random() < 0.3:
+                    ops.insert(rng.randrange(1, len(ops) + 1), "p:%s" % rng.choice(PROBES))
+                for order in (("f", "r") if api == "sax2" else ("f",)):
+                    out.append(("featseq-" + api, "Q %s IG %s %s F:%s" % (api, order, " ".join(ops), rng.choice(["plain", "dws", "svn", "dext1"]))))
+    # random longer sequences over all switches
+    for api in APIS:
+        for _ in range(60 if not thorough else 1500):
+            feats = SEQ_FEATURES[api]
+            ops = []
+            for _j in range(rng.randrange(3, 14)):
+                f = rng.choice(feats[:4]) if rng.random() < 0.5 else rng.choice(feats)
+                ops.append("s:%s:%d" % (f, rng.randrange(3) if f == "val" else rng.randrange(2)))
+                if rng.random() < 0.12:
+                    ops.append("p:%s" % rng.choice(PROBES))
+            out.append(("featseq-" + api, "Q %s %s %s %s F:%s" % (api, rng.choice(["IG", "IG", "DG", "WF"]), rng.choice("fr"),
+                                                               " ".join(ops), rng.choice(PROBES))))
     return out
 
 
@@ -543,6 +697,9 @@ def run(ctx):
             cases.append(("prog-" + api, "H %s IG s:val:1 s:ns:1 s:schema:1 pn:%s:%d F:dbad3" % (api, d, k - 1)))
     cases += gen_cache_cross(rng, thorough)
     cases += gen_dtd_cross(rng, thorough)
+    cases += gen_settings_between(rng, thorough)
+    cases += gen_big(rng, thorough)
+    cases += gen_feature_seq(rng, thorough)
     # DOMLSParser: parseWithContext with every action / context kind / fragment, then a validating parse; filters; parseURI
     for frag in FRAGS:
         for action in range(1, 6):
@@ -628,7 +785,7 @@ def run(ctx):
         i = i.strip()
         m = m.strip()
         v = i.split()[0] if i else "?"
-        if req[0] in "HT":
+        if req[0] in "HTQ":
             verdicts[v] = verdicts.get(v, 0) + 1
         if req[0] in "GS":
             ctx.distinct(req)
@@ -653,6 +810,14 @@ def run(ctx):
             continue
         if v == "crash":
             continue            # handled when it happened
+        if req[0] == "Q" and v != "same":
+            ctx.violation("feature-sequence", {"request": req, "impl": i[:3000],
+                                               "what": "after this sequence of configuration calls the parser is not in the state "
+                                                       "determined by the final read-back values (getFeature / getParameter / "
+                                                       "getXxx): a fresh parser on which only those values were set reads back "
+                                                       "differently or parses the probe document differently"})
+            unexplained += 1
+            continue
         if v == "configchanged":
             par = i.split()[1] if len(i.split()) > 1 else "?"
             hd, hops, _f = split_hist(req)
